@@ -144,7 +144,7 @@ REVERTS: list[tuple[str, str, list[str]]] = [
     ("revert-F1", "fix: rebuild unions through the top-level member", ["C11.R4"]),
     ("revert-F5a", "fix: give every element of a default array", ["C14.R2"]),
     ("revert-F9", "fix: record _values/_sizes when a single-char structure", ["C09.R3"]),
-    ("revert-F4", "fix: write bit-field units of signed storage types", ["C06.R5", "C01.R6"]),
+    ("revert-F4", "fix: keep rejecting bit field values that overflow a signed storage unit|fix: write bit-field units of signed storage types", ["C06.R5", "C01.R6"]),
     ("revert-F11", "fix: record member sizes of a dynamic union", ["C09.R4"]),
     ("revert-F12", "fix: alias typedefs of array and pointer types", ["C20.R6"]),
     ("revert-F13", "fix: emit the integer value of anonymous enum members", ["C20.R7"]),
@@ -157,6 +157,9 @@ REVERTS: list[tuple[str, str, list[str]]] = [
     ("revert-F22", "fix: start a new compiled read block when a field offset moves backwards", ["C03.R18"]),
     ("revert-F20", "fix: keep array sizes that name an earlier field", ["C07.R11", "C10.R8"]),
     ("revert-F23", "fix: do not align the stream after a structure without fields", ["C09.R5", "C09.R6", "C03.R19"]),
+    ("revert-F24", "fix: allow bit fields of the same type behind a dynamically sized field", ["C04.R12", "C06.R8"]),
+    ("revert-F25", "fix: remember the storage type of every compiled bit field unit", ["C06.R1", "C03.R9"]),
+    ("revert-F26", "fix: keep rejecting bit field values that overflow a signed storage unit", ["C06.R5", "C01.R6"]),
 ]
 
 # behaviour-preserving textual twins (id, file, old, new)
